@@ -15,7 +15,7 @@ that follows urllib.parse.urlsplit / urljoin on the generated grammar.
 import itertools
 import os
 import sys
-from urllib.parse import urlsplit, urljoin, parse_qsl, unquote
+from urllib.parse import urlsplit, urljoin, parse_qsl, unquote, quote
 
 sys.path.insert(0, os.path.dirname(os.path.abspath(__file__)))
 
@@ -52,8 +52,10 @@ def abs_locations():
 
 
 def base_url(cur):
+    """the url of the request that was redirected, in encoded form (cur[3] is the DECODED path the
+    client was given / was redirected to)"""
     scheme, host, port, path = cur
-    return "%s://%s:%d%s" % (scheme, host, port, path)
+    return "%s://%s:%d%s" % (scheme, host, port, quote(path, safe="/"))
 
 
 def expected_hop(cur, loc):
@@ -64,7 +66,7 @@ def expected_hop(cur, loc):
     port = u.port if u.port is not None else (443 if scheme == "https" else 80)
     if cur[0] == "https" and scheme != "https":
         return "refused", None
-    return "ok", (scheme, u.hostname, port, u.path or "/", u.query)
+    return "ok", (scheme, u.hostname, port, unquote(u.path or "/"), u.query)   # path DECODED = expected PATH_INFO
 
 
 def expected_chain(start, hops):
@@ -112,8 +114,8 @@ def prop_violation(start, hops, res):
         # name (pinned by the repository's own testPatronRedirectSimple): compare addresses
         if py_norm((host_header or "").rsplit(":", 1)[0]) != py_norm(e[1]) or py_norm(dial_host) != py_norm(e[1]):
             return "hop %d: Host %r / dialled %r, resolved host %r" % (k, host_header, dial_host, e[1])
-        if unquote(path) != unquote(e[3]):
-            return "hop %d: path %r, resolved path %r" % (k, path, e[3])
+        if path != e[3]:      # PATH_INFO (decoded once by the server) against the decoded resolved path
+            return "hop %d: request reissued to path %r, urljoin of the original url gives %r" % (k, path, e[3])
         if not same_query(query, e[4]):
             return "hop %d: query %r, resolved query %r" % (k, query, e[4])
         if method != "GET":
@@ -373,6 +375,25 @@ def run(ctx):
             failing.append((st, [(302, loc)], res, why))
             ctx.tie_broken("correspondence", "sampled Location outside the grammar", "%s; loc=%r" % (why, loc))
 
+    # request paths with characters that get escaped x PATH-RELATIVE Locations, also in multi-hop chains
+    esc_starts = [u"/d r/a b", u"/caf\u00e9/men\u00fc", u"/p%41/q r", u"/a+b/c d/e", u"/x y"]
+    rel_locs = [u"next", u"../x", u"?q=1", u"sub/y", u"./z?k=v", u"n%20m", u"../../top", u"o p", u"/abs", u"http://127.0.0.1:6102/other/p"]
+    esc_chains = []
+    for sp in esc_starts:
+        for loc in rel_locs[:8]:
+            esc_chains.append((("http", "127.0.0.1", 6101, sp, ""), [(302, loc)]))
+    for _ in range(ctx.n(40, 400)):
+        st = ("http", "127.0.0.1", 6101, ctx.rng.choice(esc_starts), ctx.rng.choice(["", "a=1"]))
+        esc_chains.append((st, [(ctx.rng.choice(REDIRECT_STATUSES), ctx.rng.choice(rel_locs)) for _ in range(ctx.rng.randint(2, 3))]))
+    for st, hops in esc_chains:
+        res = harness.run_chain(st, hops)
+        why = prop_violation(st, hops, res)
+        ctx.case({"escaped_start": st, "hops": hops}, nontrivial=True, kind="escaped-path x relative")
+        if why:
+            failing.append((st, hops, res, why))
+            ctx.tie_broken("correspondence", "escaped request path with path-relative Location",
+                           "%s; start=%r hops=%r" % (why, st, hops))
+
     ctx.extra["mismatches"] = len(bad) + len(bad2)
     ctx.extra["property_failures"] = len(failing)
     ctx.exhaustive = False
@@ -400,7 +421,9 @@ def run(ctx):
                 hops, res, why = hops[k:k + 1], r2, w2
                 break
         loc = hops[-1][1]
-        if res["error"] == "AttributeError" and "context" in (res["errtext"] or ""):
+        if "urljoin of the original url" in why and any(c in st[3] for c in u" %+\u00e9\u00fc"):
+            key = "redirect-relative-against-encoded-path"
+        elif res["error"] == "AttributeError" and "context" in (res["errtext"] or ""):
             key = "redirect-https-upgrade"
         elif not urlsplit(loc).netloc or not urlsplit(loc).scheme:
             key = "redirect-relative-location"
